@@ -1,10 +1,10 @@
 ------------------------------ MODULE AbiDecls ------------------------------
 (* Placeholder so that the specification parses stand-alone; tools/props/C19.py regenerates this module from the
    sources of /repo on every run (C declarations from BTF, Go declarations by reflection in both build flavours). *)
-F(n, k, s, st, c) == [name |-> n, kind |-> k, size |-> s, struct |-> st, count |-> c]
+F(n, k, s, st, c, nm) == [name |-> n, kind |-> k, size |-> s, struct |-> st, count |-> c, norm |-> nm]
 PadNames == {"padding"}
-CDecls == [x \in {"t"} |-> [union |-> FALSE, fields |-> <<F("a", "scalar", 4, "", 0)>>]]
-GoDeclsReal == [x \in {"t"} |-> [union |-> FALSE, fields |-> <<F("A", "scalar", 4, "", 0)>>]]
+CDecls == [x \in {"t"} |-> [union |-> FALSE, fields |-> <<F("a", "scalar", 4, "", 0, "a")>>]]
+GoDeclsReal == [x \in {"t"} |-> [union |-> FALSE, fields |-> <<F("A", "scalar", 4, "", 0, "a")>>]]
 GoDeclsStub == GoDeclsReal
 Pairs == {[c |-> "t", go |-> "t", flavour |-> "real"]}
 CEnums == [k \in {"X"} |-> 1]
